@@ -86,6 +86,10 @@ Definition raised (exc : string) : err := if existsb (String.eqb exc) caught_err
 Definition numeric_target (t : target) : bool :=
   match t with TFract _ | TCartn _ | TUisoequiv | TOccupancy | TUij _ => true | _ => false end.
 
+(* m * 10^e with the operations of any number type *)
+Definition dec_ops {T : Type} (O : ops T) (d : dec) : T :=
+  if 0 <=? d_e d then tofZ O (d_m d * 10 ^ d_e d) else tdiv O (tofZ O (d_m d)) (tofZ O (10 ^ (- d_e d))).
+
 Section Reader.
 Context {T : Type}.
 
@@ -97,14 +101,14 @@ Record env := Env {
   e_lat : latdata T;           (* Lattice(a, b, c, alpha, beta, gamma) of the block (or Lattice() without cell items) *)
   e_recbase : gmat T;          (* its recbase, used by Lattice.fractional *)
   e_D : Z;                     (* grid of the symmetry expansion, 12 | D *)
-  e_grid : T -> Z              (* nearest grid point of a coordinate *)
+  e_grid : T -> Z;             (* nearest grid point of a coordinate *)
+  e_dec : dec -> T             (* value of a decimal literal m * 10^e *)
 }.
 Variable E : env.
 Let C := e_C E.
 Let O := cO C.
 
-Definition dec_T (d : dec) : T :=
-  if 0 <=? d_e d then tofZ O (d_m d * 10 ^ d_e d) else tdiv O (tofZ O (d_m d)) (tofZ O (10 ^ (- d_e d))).
+Definition dec_T (d : dec) : T := e_dec E d.
 
 Definition type_val (st : setter) (s : string) : val :=
   if numeric_target (s_target st) then
@@ -397,4 +401,28 @@ Arguments VStr {T} _. Arguments VNum {T} _. Arguments VBad {T}. Arguments VSpeci
 Definition QC (pi eps : Q) : cctx Q := CC QOps pi (fun x => x) (cart_lat QOps eps).
 Definition Qgrid (Dz : Z) (q : Q) : Z := Qfloor (q * inject_Z Dz + (1 # 2)).
 Definition QE (pi eps : Q) (lat : latdata Q) (recbase : gmat Q) (Dz : Z) : env :=
-  Env (QC pi eps) lat recbase Dz (Qgrid Dz).
+  Env (QC pi eps) lat recbase Dz (Qgrid Dz) (dec_ops QOps).
+
+(* ---------------- the instance the correspondence run executes: decimal numbers m * 10^e ----------------
+   sums, differences and products are exact while the exponent stays above -18; below, and for quotients, the result
+   is rounded down at 1e-18, far below the comparison tolerances.  No gcd computations, small mantissas. *)
+Definition dpow (k : Z) : Z := if k =? 0 then 1 else 10 ^ k.
+Definition d_norm (m e : Z) : dec := if e <? -18 then Dec (Z.div m (dpow (-18 - e))) (-18) else Dec m e.
+Definition d_align (x y : dec) : Z * Z * Z :=
+  let e := Z.min (d_e x) (d_e y) in (d_m x * dpow (d_e x - e), d_m y * dpow (d_e y - e), e).
+Definition dadd (x y : dec) : dec := let '(a, b, e) := d_align x y in Dec (a + b) e.
+Definition dsub (x y : dec) : dec := let '(a, b, e) := d_align x y in Dec (a - b) e.
+Definition dmul (x y : dec) : dec := d_norm (d_m x * d_m y) (d_e x + d_e y).
+Definition ddiv (x y : dec) : dec :=
+  if d_m y =? 0 then Dec 0 0
+  else let k := 20 + Z.log2 (Z.abs (d_m y)) in     (* at least 20 significant digits in the quotient *)
+       d_norm (Z.div (d_m x * dpow k) (d_m y)) (d_e x - k - d_e y).
+Definition dltb (x y : dec) : bool := let '(a, b, _) := d_align x y in a <? b.
+Definition DOps : ops dec :=
+  Ops dec (Dec 0 0) (Dec 1 0) dadd dsub dmul ddiv dec_opp (fun z => Dec z 0) (fun x => Dec (Z.abs (d_m x)) (d_e x)) dltb.
+Definition DC (pi eps : dec) : cctx dec := CC DOps pi (fun x => x) (cart_lat DOps eps).
+(* nearest grid point of m * 10^e *)
+Definition Dgrid (Dz : Z) (x : dec) : Z :=
+  if 0 <=? d_e x then d_m x * dpow (d_e x) * Dz else Z.div (2 * d_m x * Dz + dpow (- d_e x)) (2 * dpow (- d_e x)).
+Definition DE (pi eps : dec) (lat : latdata dec) (recbase : gmat dec) (Dz : Z) : env :=
+  Env (DC pi eps) lat recbase Dz (Dgrid Dz) (fun d => d_norm (d_m d) (d_e d)).
